@@ -20,7 +20,7 @@ RULE = ("Cases: a valid document of a text format (JSON, JSON5, YAML, XML, HTML,
         "variants) serialised deterministically, one corruption {truncate at byte i | delete byte i | duplicate byte i "
         "(delimiter bytes {}[]:,\"<>/=&; newline, space) | replace byte i by an unbalancing bracket/tag character | flip "
         "byte i to a drawn value}, and the position of the corrupt file (first or second) next to a valid file of the "
-        "same type (optionally with an explicit, more permissive type given for the valid file only); JSON/XML documents also in a multi-line layout with trailing newline; files of nothing but white space. Quick: every byte position of 3 fixed documents per format for truncate/delete/duplicate x both "
+        "same type (optionally with an explicit, more permissive type given for the valid file only); JSON/XML documents also in a multi-line layout with trailing newline; files of nothing but white space; a third of the first document's corruptions also arrive on standard input (path - with --from-T / --to-T), half of them right after an invocation in the same process that read the well-formed document from standard input (then stderr must carry a message; the temporary file's name is not checked). Quick: every byte position of 3 fixed documents per format for truncate/delete/duplicate x both "
         "positions; thorough adds 30 generated documents per format and byte flips. A corruption is kept only if the "
         "independent parser of the format rejects it (json.loads; json5.loads; both yaml.SafeLoader and "
         "yaml.CSafeLoader; expat; plistlib.loads); the number discarded as still valid is reported. Oracle: main() "
@@ -176,6 +176,17 @@ def run_job(job, seed, sink):
                                            'opts': OPTS[(i // 16) % len(OPTS)], 'layout': layout,
                                            'explicit': EXPLICIT.get(fmt, [None])[(i // 32) % len(EXPLICIT.get(fmt, [None]))]})
                             i += 1
+                if di == 0:
+                    # the same corruptions arriving on standard input ("-" with an explicit type), right after an invocation
+                    # in the same process that read a well-formed document from standard input
+                    for ci, c in enumerate(enumerate_corruptions(fmt, doc, ascii_only)):
+                        if ci % 3:
+                            continue
+                        for pos in (0, 1):
+                            if i % 16 == job['shard']:
+                                sink.fast({'fmt': fmt, 'doc': doc, 'ascii': ascii_only, 'corruption': c, 'position': pos, 'opts': '--no-status',
+                                           'layout': 'compact', 'explicit': None, 'stdin': True, 'warm': ci % 2 == 0})
+                            i += 1
             # degenerate files: nothing but white space
             for blank in (b'\n', b'\n\n\n', b' ', b'\t\n'):
                 for pos in (0, 1):
@@ -230,10 +241,18 @@ def check(case):
         extra = []
         if case.get('explicit'):
             extra = [('--to-' if case.get('position', 0) == 0 else '--from-') + case['explicit']]
-        r = cli.run_main(pair + case.get('opts', '--no-status').split() + ['--no-color'] + extra)
+        if case.get('stdin'):
+            pos = case.get('position', 0)
+            pair = ['-', pg] if pos == 0 else [pg, '-']
+            extra = extra + [('--from-' if pos == 0 else '--to-') + fmt]
+            if case.get('warm'):
+                cli.run_main(pair + ['--no-status', '--no-color'] + extra, stdin=good)
+            r = cli.run_main(pair + case.get('opts', '--no-status').split() + ['--no-color'] + extra, stdin=bad)
+        else:
+            r = cli.run_main(pair + case.get('opts', '--no-status').split() + ['--no-color'] + extra)
     finally:
         cli.cleanup_files(pg, pbad)
-    what = f"{fmt} {case['corruption']} as {'first' if case.get('position', 0) == 0 else 'second'} file{' with ' + extra[0] + ' for the valid file' if extra else ''}; corrupt bytes {bad[:80]!r}"
+    what = f"{fmt} {case['corruption']} {'on standard input ' if case.get('stdin') else ''}as {'first' if case.get('position', 0) == 0 else 'second'} file{' with ' + extra[0] + ' for the valid file' if extra else ''}; corrupt bytes {bad[:80]!r}"
     if r.exc is not None:
         out.fail('exception:' + r.exc_key, f"{what}: {type(r.exc).__name__}: {str(r.exc)[:160]}")
     elif isinstance(r.rc, tuple):
@@ -243,9 +262,14 @@ def check(case):
     else:
         if r.out.strip():
             out.fail('diff-printed-for-malformed-input', f"{what}: stdout {r.out[:120]!r}")
-        if os.path.basename(pbad) not in r.err:
+        if case.get('stdin'):
+            if not r.err.strip():
+                out.fail('no-error-message', f"{what}: nothing on standard error")
+        elif os.path.basename(pbad) not in r.err:
             out.fail('error-does-not-name-file', f"{what}: stderr {r.err[-200:]!r} does not mention {os.path.basename(pbad)}")
     out.nontrivial = len(bad) > 0
     out.label('fmt:' + fmt, 'kind:' + case['corruption']['kind'], 'pos:%d' % case.get('position', 0))
+    if case.get('stdin'):
+        out.label('via-stdin', 'after-valid-stdin-run' if case.get('warm') else 'first-stdin-run')
     out.info = {'rc': r.rc if not isinstance(r.rc, tuple) else list(r.rc), 'stderr': r.err[-120:]}
     return out
